@@ -1265,18 +1265,20 @@ def rule_claim_sem(ctx: RuleContext, p: Program, rid: str, max_len: int = 3) -> 
                 raise possem.Raised(norm(st.exc)[:60] if st.exc is not None else 'raise')
             super().stmt(st, env)
 
-    def mk(ch: str, i: int) -> Any:
+    def mk(ch: str, i: int, edge_indented: bool = True) -> Any:
         if ch == 'P':
             return possem.Obj('Placeholder', {'raw_text': '', 'RULE': 'PLACEHOLDER'}, f'{i}:placeholder')
         if ch == 'N':
             return possem.Obj('Newline', {'raw_text': '\n', 'RULE': 'NEWLINE'}, f'{i}:newline')
         if ch in 'cCdD':
-            return possem.Obj('BlockComment', {'raw_text': '; x', 'RULE': 'BLOCK_COMMENT', 'claimed': ch in 'CD', 'indent': '    ' if ch in 'cC' else '  ',
+            return possem.Obj('BlockComment', {'raw_text': '; x', 'RULE': 'BLOCK_COMMENT', 'claimed': ch in 'CD',
+                                               'indent': ('    ' if ch in 'cC' else '  ') if edge_indented else ('' if ch in 'cC' else '  '),
                                                'value': 'x'}, f'{i}:{"claimed " if ch in "CD" else ""}comment{" (indented less than the edge)" if ch in "dD" else ""}')
         return possem.Obj('Account', {'raw_text': 'x', 'RULE': 'ACCOUNT'}, f'{i}:other')
 
     n = 0
     problem = ''
+    problem_class = ''
     alphabet = 'PNcCdO'
     for k in range(0, max_len + 1):
         for seq in itertools.product(alphabet, repeat=k):
@@ -1285,7 +1287,7 @@ def rule_claim_sem(ctx: RuleContext, p: Program, rid: str, max_len: int = 3) -> 
                     for edge_kind in ('Indent', 'Account'):
                         if problem:
                             break
-                        side = [mk(ch, i) for i, ch in enumerate(seq)]
+                        side = [mk(ch, i, edge_kind == 'Indent') for i, ch in enumerate(seq)]
                         start = possem.Obj(edge_kind, {'raw_text': '    ' if edge_kind == 'Indent' else 'x', 'RULE': 'INDENT' if edge_kind == 'Indent' else 'ACCOUNT'}, 'edge')
                         doc = (list(reversed(side)) + [start]) if backwards else ([start] + side)
                         before = list(doc)
@@ -1298,12 +1300,15 @@ def rule_claim_sem(ctx: RuleContext, p: Program, rid: str, max_len: int = 3) -> 
                             j += 1
                         want: Any = None
                         refuse = False
+                        other_class = False
                         if j < len(seq) and seq[j] == 'N':
                             j += 1
                             while j < len(seq) and seq[j] == 'P':
                                 j += 1
                             if j < len(seq) and seq[j] in 'cCdD':
-                                if seq[j] in 'cd':
+                                if edge_kind == 'Account' and seq[j] in 'dD':
+                                    other_class = True          # an indented comment next to a model that is not indented: judged separately
+                                elif seq[j] in 'cd':
                                     want = side[j]
                                 elif not ignore:
                                     refuse = True
@@ -1329,6 +1334,12 @@ def rule_claim_sem(ctx: RuleContext, p: Program, rid: str, max_len: int = 3) -> 
                             raised = False
                         except possem.Raised:
                             got, raised = None, True
+                        if other_class:
+                            if (got is not None or raised) and not problem_class:
+                                problem_class = (f'{where_}: the comment is indented, the model is not, yet the comment is '
+                                                 f'{"claimed" if got is not None else "looked at (the call raises)"} -- the documented order attributes a comment to '
+                                                 f'the model directly below / above only within the same indentation class')
+                            continue
                         if raised != refuse:
                             problem = f'{where_}: {"raises" if raised else "does not raise"}'
                         elif got is not want:
@@ -1342,6 +1353,10 @@ def rule_claim_sem(ctx: RuleContext, p: Program, rid: str, max_len: int = 3) -> 
                             problem = f'{where_}: nothing is claimed, yet the store or a claimed flag changed'
     if n < 1500 and not problem:
         raise AnalysisError(f'CLAIM-SEM: only {n} neighbourhoods evaluated')
+    ctx.check(not problem_class, rid, 'models.internal.surrounding_comments:_claim_comment', 'indentation class',
+              f'{problem_class} (docs/special/comments.md: "immediately before a model with the same indentation"); e.g. at file level '
+              f'`open ..` / blank line / `  ; note` / `close ..`: the indented note becomes the leading comment of the unindented close', fn.where,
+              note='an indented comment is not attributed to a model that is not indented')
     ctx.check(not problem, rid, 'models.internal.surrounding_comments:_claim_comment', 'claims exactly the adjacent unclaimed comment',
               f'{problem}: the attribution order (leading comment of the model below, else trailing comment of the model above, else standalone) rests on '
               f'this function claiming the adjacent comment whenever there is one; a model parsed on its own also needs the claim to include the '
